@@ -306,6 +306,117 @@ func addNullListedEnums(t *rapid.T, c *core.Ctx, f *model.File) {
 	c.Count("shape.enum_listing_null_single_type")
 }
 
+// directedJobs: hand-shaped documents for a directed scenario. Each entry sets
+// the given root keys on top of a minimal valid document (required keys only);
+// the oracle decides whether the result is to be accepted (with the expected
+// decoded value) or rejected (exactly one violated rule, else the entry is dropped).
+func directedJobs(t *rapid.T, c *core.Ctx, root *model.Node, o *docs.Opts, label string, sets []map[string]string) []core.Job {
+	return directedJobsV(t, c, root, o, label, sets, true)
+}
+
+// directedJobsV: with values=false only the verdict is judged (scenarios in which the
+// Go representation of an accepted value - struct or map - is not the subject).
+func directedJobsV(t *rapid.T, c *core.Ctx, root *model.Node, o *docs.Opts, label string, sets []map[string]string, values bool) []core.Job {
+	var jobs []core.Job
+	oo := *o
+	oo.NoProps = true
+	base, ok := docs.Valid(t, root, &oo)
+	if !ok || base.K != jv.Obj {
+		return nil
+	}
+	for _, set := range sets {
+		v := base.Clone()
+		keys := make([]string, 0, len(set))
+		for k := range set {
+			keys = append(keys, k)
+		}
+		sort.Strings(keys)
+		for _, k := range keys {
+			v = v.Set(k, jv.MustParse(set[k]))
+		}
+		vs := oracle.Validate(root, v)
+		switch {
+		case len(vs) == 0:
+			j := core.Job{Type: progRoot, Op: "json", Doc: string(v.Marshal()), Expect: "accept", Label: label + ":valid"}
+			if values {
+				j.ExpectVal = expJSON(docs.Expect(root, v))
+			}
+			jobs = append(jobs, j)
+			c.Count("doc.directed.valid")
+		case len(vs) == 1:
+			jobs = append(jobs, core.Job{Type: progRoot, Op: "json", Doc: string(v.Marshal()), Expect: "reject", Rule: vs[0].String(), Label: label + ":" + vs[0].Rule})
+			c.Count("doc.directed.reject")
+		default:
+			c.Count("doc.directed.dropped")
+		}
+	}
+	return jobs
+}
+
+// addSharedBaseAllOf: two allOf lists over the same base definition ("Base +
+// extension"); the list generated first adds a property with a default, the
+// later one adds the same-named property without default and requires it.
+func addSharedBaseAllOf(t *rapid.T, c *core.Ctx, f *model.File) []map[string]string {
+	base := &model.Node{Kind: model.KObject, Props: []model.Prop{{Name: "id", Node: &model.Node{Kind: model.KString}}}, Required: []string{"id"}}
+	f.Defs = append(f.Defs, model.Def{Name: "ZResource", Node: base})
+	ref := func() *model.Node { return &model.Node{Kind: model.KRef, Ref: "#/$defs/ZResource", Target: base} }
+	dv := jv.StrV("draft")
+	withDefault := &model.Node{Kind: model.KObject, Props: []model.Prop{{Name: "status", Node: &model.Node{Kind: model.KString, Default: &dv}}}}
+	required := &model.Node{Kind: model.KObject, Props: []model.Prop{{Name: "status", Node: &model.Node{Kind: model.KString}}}, Required: []string{"status"}}
+	// names decide the generation order (properties are visited alphabetically)
+	first, second := "zadraft", "zbpublished"
+	if rapid.Bool().Draw(t, "sharedbaseorder") {
+		first, second = "zbdraft", "zapublished"
+	}
+	f.Root.Props = append(f.Root.Props,
+		model.Prop{Name: first, Node: &model.Node{Kind: model.KAllOf, Branches: []*model.Node{ref(), withDefault}}},
+		model.Prop{Name: second, Node: &model.Node{Kind: model.KAllOf, Branches: []*model.Node{ref(), required}}})
+	c.Count("shape.shared_base_allof_default_then_required")
+	return []map[string]string{
+		{second: `{"id":"2"}`},
+		{second: `{"id":"2","status":"live"}`},
+		{second: `{"status":"live"}`},
+		{first: `{"id":"1","status":"x"}`},
+		{first: `{"id":"1","status":"x"}`, second: `{"id":"2"}`},
+	}
+}
+
+// addNestedAnyOfShared: an anyOf whose inline object branch holds another anyOf
+// over the definitions that are also listed as later branches of the outer list
+// (payment = anyOf[{split: [anyOf[Card, Bank]]}, Card, Bank]).
+func addNestedAnyOfShared(t *rapid.T, c *core.Ctx, f *model.File) []map[string]string {
+	card := &model.Node{Kind: model.KObject, Props: []model.Prop{{Name: "pan", Node: &model.Node{Kind: model.KString}}}, Required: []string{"pan"}}
+	bank := &model.Node{Kind: model.KObject, Props: []model.Prop{{Name: "iban", Node: &model.Node{Kind: model.KString}}}, Required: []string{"iban"}}
+	f.Defs = append(f.Defs, model.Def{Name: "ZCard", Node: card}, model.Def{Name: "ZBank", Node: bank})
+	rc := func() *model.Node { return &model.Node{Kind: model.KRef, Ref: "#/$defs/ZCard", Target: card} }
+	rb := func() *model.Node { return &model.Node{Kind: model.KRef, Ref: "#/$defs/ZBank", Target: bank} }
+	inner := &model.Node{Kind: model.KAnyOf, Branches: []*model.Node{rc(), rb()}}
+	var holder *model.Node
+	if rapid.Bool().Draw(t, "nestedanyofarray") {
+		holder = &model.Node{Kind: model.KArray, Items: inner}
+	} else {
+		holder = inner
+	}
+	inline := &model.Node{Kind: model.KObject, Props: []model.Prop{{Name: "split", Node: holder}}, Required: []string{"split"}}
+	f.Root.Props = append(f.Root.Props, model.Prop{Name: "zpayment", Node: &model.Node{Kind: model.KAnyOf, Branches: []*model.Node{inline, rc(), rb()}}})
+	c.Count("shape.nested_anyof_shares_later_branches")
+	if holder.Kind == model.KArray {
+		return []map[string]string{
+			{"zpayment": `{"split":[{"pan":"4111"},{"iban":"DE1"}]}`},
+			{"zpayment": `{"split":[{"pan":"4111"},{}]}`},
+			{"zpayment": `{"split":[{}]}`},
+			{"zpayment": `{"pan":"4111"}`},
+			{"zpayment": `{"iban":"DE1"}`},
+		}
+	}
+	return []map[string]string{
+		{"zpayment": `{"split":{"pan":"4111"}}`},
+		{"zpayment": `{"split":{}}`},
+		{"zpayment": `{"pan":"4111"}`},
+		{"zpayment": `{"iban":"DE1"}`},
+	}
+}
+
 // maybeStaleLegacy: with probability 1/den the file states its definitions under
 // both container keywords, the legacy one holding an out-of-date copy (other
 // types, no constraints) that no reference names.
